@@ -123,7 +123,7 @@ def run_strings(ctx, stream, strs, kinds=("u64", "i64", "f64"), nontrivial_all=F
         for k in kinds:
             cases.append(("scalar.%s\t%s" if k != "f64" else "f64.parse\t%s") % ((k, h) if k != "f64" else (h,)))
     nt = (lambda c, i: True) if nontrivial_all else (lambda c, i: not i.startswith("ERR"))
-    impl, _ = ctx.correspond(stream, cases, nontrivial=nt)
+    impl, model = ctx.correspond(stream, cases, nontrivial=nt)
     base = len(impl) - len(cases)
     # corpus cases (if any) go through the same oracles
     allc = ctx.corpus(stream) if base else []
@@ -143,6 +143,37 @@ def run_strings(ctx, stream, strs, kinds=("u64", "i64", "f64"), nontrivial_all=F
             if (e is None) != out.startswith("ERR") or (e is not None and out != e):
                 ctx.fail("bool", "to_bool(%r) = %s" % (s, out), [c], [out], e or "refusal")
     ctx.count(stream, len(strs))
+    return allc + cases, model
+
+
+def incoq_sample(ctx, stream_cases, model_out):
+    """Cross-check of the extraction step: a random sub-sample of the f64 cases is evaluated inside Coq
+    (Eval vm_compute over the Flocq model) and compared with what the extracted OCaml model printed."""
+    import os, re, vlib
+    pick = [k for k in range(len(stream_cases)) if stream_cases[k].startswith("f64.parse")]
+    ctx.rng.shuffle(pick)
+    pick = pick[:ctx.scale(120, 1500)]
+    d = os.path.join(vlib.CACHE, "incoq")
+    os.makedirs(d, exist_ok=True)
+    f = os.path.join(d, "C11cases.v")
+    with open(f, "w") as fh:
+        fh.write("From JV Require Import Bytes ScalarF64.\nOpen Scope N_scope.\n")
+        for k in pick:
+            b = unhex(stream_cases[k].split("\t")[1])
+            fh.write("Eval vm_compute in to_f64_bits [%s].\n" % "; ".join(str(x) for x in b))
+    rc, out, _ = vlib.sh(["coqc", "-Q", os.path.join(vlib.COQ, "theories"), "JV", "-noglob", f], cwd=d, timeout=600)
+    vals = re.findall(r"=\s*(?:Ok\s+\(?(-?\d+)\)?%Z|Err\s+(\d+)|(Panic|OOB|OutOfFuel))", out)
+    if rc != 0 or len(vals) != len(pick):
+        ctx.broken.append({"what": "in-coq-sample", "detail": "coqc rc=%s, %d results for %d cases: %s" % (rc, len(vals), len(pick), out[-600:])})
+        return
+    bad = 0
+    for k, (okv, errv, crash) in zip(pick, vals):
+        got = ("%016x" % int(okv)) if okv != "" else ("ERR:" + errv if errv != "" else "PANIC")
+        if got != model_out[k]:
+            bad += 1
+            if bad <= 3:
+                ctx.broken.append({"what": "extraction", "detail": "%s: vm_compute in Coq gives %s, extracted model printed %s" % (stream_cases[k], got, model_out[k])})
+    ctx.count("in_coq_cross_checked", len(pick))
 
 
 def exhaustive(alphabet, maxlen):
@@ -219,7 +250,8 @@ def run(ctx):
     # 2. boundaries
     run_strings(ctx, "boundaries", sorted(boundary_strings(rng)), nontrivial_all=True)
     # 3. fractions (22/23 digits, 2^53, 2^64)
-    run_strings(ctx, "fractions", sorted(fraction_strings(ctx, rng)), kinds=("f64",), nontrivial_all=True)
+    fc, fm = run_strings(ctx, "fractions", sorted(fraction_strings(ctx, rng)), kinds=("f64",), nontrivial_all=True)
+    incoq_sample(ctx, fc, fm)
     # 4. random long digit strings
     run_strings(ctx, "long", sorted(long_strings(ctx, rng)), nontrivial_all=True)
     # 5. bool
